@@ -53,6 +53,10 @@ func (r *NodeManagement) processReadDetailedDiscoveryData(deviceRemote api.Devic
 func (r *NodeManagement) processReplyDetailedDiscoveryData(message *api.Message, data *model.NodeManagementDetailedDiscoveryDataType) error {
 	remoteDevice := message.DeviceRemote
 
+	if data.DeviceInformation == nil {
+		return errors.New("nodemanagement.replyDetailedDiscoveryData: invalid DeviceInformation")
+	}
+
 	deviceDescription := data.DeviceInformation.Description
 	if deviceDescription == nil {
 		return errors.New("nodemanagement.replyDetailedDiscoveryData: invalid DeviceInformation.Description")
@@ -134,6 +138,11 @@ func (r *NodeManagement) provideDetailedDiscoveryDiffForFullNotify(message *api.
 	// seach for removed entites
 	for _, entity := range remoteDevice.Entities() {
 		address := entity.Address()
+		// the device information entity is never removed, without its NodeManagement
+		// feature no further message of the device can be processed
+		if slices.Equal(address.Entity, DeviceInformationAddressEntity) {
+			continue
+		}
 		if !r.addressEntityListContainsAddressEntity(existingEntities, address.Entity) {
 			// does not exists
 			removed := model.NetworkManagementStateChangeTypeRemoved
@@ -271,6 +280,10 @@ func (r *NodeManagement) processNotifyDetailedDiscoveryData(message *api.Message
 				}
 
 				entityAddress := ei.Description.EntityAddress.Entity
+				// the device information entity can not be removed
+				if slices.Equal(entityAddress, DeviceInformationAddressEntity) {
+					continue
+				}
 				removedEntity := remoteDevice.RemoveEntityByAddress(entityAddress)
 
 				// only continue if the entity existed
